@@ -34,9 +34,17 @@ type Cfg struct {
 	Proto string `json:"proto"` // text | binary
 	L1H   string `json:"l1h"`   // std | chunked
 	Conc  uint8  `json:"conc"`  // lock concurrency (2^conc stripes)
+	// App: the deployment is built by rend's own main program (app/memproxy.go: flags, lock set
+	// sharing between the ports, listeners of server/listen.go, handler constructors of
+	// handlers/memcached/constructors.go, server.ListenAndServe) instead of being wired by the
+	// harness; "l1l2" and "l1l2b" are then the same deployment (--l2-enabled starts both ports).
+	App bool `json:"app,omitempty"`
 }
 
 func (c Cfg) String() string {
+	if c.App {
+		return fmt.Sprintf("%s/%s/%s/l1=%s/main", c.Orca, c.Lock, c.Proto, c.L1H)
+	}
 	return fmt.Sprintf("%s/%s/%s/l1=%s", c.Orca, c.Lock, c.Proto, c.L1H)
 }
 
@@ -81,6 +89,10 @@ type Client struct {
 	Spun     bool
 	waiting  bool
 	gone     bool
+	// closeEnds: the server loop runs on a goroutine the harness does not own (deployments built by
+	// the real main program); the connection being closed is then what ends the session.
+	closeEnds  bool
+	doneClosed bool
 }
 
 // Waiting reports whether the server is blocked reading this connection (call at quiescence).
@@ -181,6 +193,10 @@ func (c *Client) Write(p []byte) (int, error) {
 func (c *Client) Close() error {
 	c.mu.Lock()
 	c.closed = true
+	if c.closeEnds && !c.doneClosed {
+		c.doneClosed = true
+		close(c.done)
+	}
 	c.mu.Unlock()
 	return nil
 }
@@ -206,12 +222,17 @@ type World struct {
 	ConnHook  func(tier int, c *fakemc.Conn)
 	nconn     int
 	batchSock string
+	app       *appInst
 }
 
 var worldSockSeq int64
 
 // Release forgets the world's batching relay (its goroutines stay parked) and the dial hook.
 func (w *World) Release() {
+	if w.app != nil {
+		w.stopApp()
+		return
+	}
 	if w.batchSock != "" {
 		batched.VerifForget(w.batchSock)
 		vnet.DialHook = nil
@@ -331,6 +352,12 @@ type Session struct {
 	marks  *spanParser
 	Ended  bool // loop has returned
 	Panics interface{}
+	// deployments built by the real main program: reply spans are delimited by the moments the
+	// harness sent a request (commands are issued one at a time); Stuck = the server neither asked
+	// for more input nor closed the connection within a virtual hour
+	appMarks  []int
+	pipelined bool
+	Stuck     bool
 }
 
 var worldMu sync.Mutex
@@ -345,6 +372,9 @@ func (w *World) ConnectLocked(port int) *Session {
 // Connect opens a client connection on a port: new handlers with their own backend connections,
 // parser/responder of the configured protocol, and the server loop on its own goroutine.
 func (w *World) Connect(port int) *Session {
+	if w.Cfg.App {
+		return w.connectApp(port)
+	}
 	s := &Session{W: w, Port: port, Cli: NewClient()}
 	l1, l1c := w.newHandler(1, w.Cfg.L1H, w.L1)
 	s.L1c = l1c
@@ -384,6 +414,18 @@ func (w *World) Connect(port int) *Session {
 }
 
 func (s *Session) waitIdle() {
+	if s.W.Cfg.App {
+		t := time.NewTimer(time.Hour) // virtual: fires only when nothing in the bubble can move
+		defer t.Stop()
+		select {
+		case <-s.Cli.idle:
+		case <-s.Cli.done:
+			s.Ended = true
+		case <-t.C:
+			s.Ended, s.Stuck = true, true
+		}
+		return
+	}
 	select {
 	case <-s.Cli.idle:
 	case <-s.Cli.done:
@@ -395,6 +437,9 @@ func (s *Session) waitIdle() {
 func (s *Session) Send(b []byte) {
 	if s.Ended {
 		return
+	}
+	if s.W.Cfg.App {
+		s.appMarks = append(s.appMarks, len(s.Cli.Out))
 	}
 	select {
 	case s.Cli.feed <- b:
@@ -418,6 +463,9 @@ func (s *Session) DoPipelined(ops []wire.Op) {
 		s.Ops = append(s.Ops, op)
 		b = append(b, wire.Encode(s.W.Cfg.Proto, op)...)
 	}
+	if len(ops) > 1 {
+		s.pipelined = true
+	}
 	s.Send(b)
 }
 
@@ -435,7 +483,12 @@ func (p *spanParser) Parse() (common.Request, common.RequestType, uint64, error)
 }
 
 // ParseCalls reports how many requests the server loop asked its parser for.
-func (s *Session) ParseCalls() int { return len(s.marks.marks) }
+func (s *Session) ParseCalls() int {
+	if s.marks == nil {
+		return -1 // not observable when the real main program built the parser
+	}
+	return len(s.marks.marks)
+}
 
 // Hangup closes the client side and waits for the loop to end.
 func (s *Session) Hangup() {
@@ -443,6 +496,17 @@ func (s *Session) Hangup() {
 		return
 	}
 	close(s.Cli.feed)
+	if s.W.Cfg.App {
+		t := time.NewTimer(time.Hour)
+		defer t.Stop()
+		select {
+		case <-s.Cli.done:
+		case <-t.C:
+			s.Stuck = true
+		}
+		s.Ended = true
+		return
+	}
 	<-s.Cli.done
 	s.Ended = true
 }
@@ -459,8 +523,13 @@ func (s *Session) RepliesLenient() (reps []wire.Reply) {
 }
 
 func (s *Session) replies(lenient bool) (reps []wire.Reply, stray int, malformed string) {
-	mk := s.marks.marks
-	if len(mk) <= len(s.Ops)+1 {
+	var mk []int
+	if s.marks != nil {
+		mk = s.marks.marks
+	} else {
+		mk = s.appMarks
+	}
+	if len(mk) <= len(s.Ops)+1 && !(s.marks == nil && s.pipelined) {
 		// the server asked for one request per request sent (plus the final read that met EOF):
 		// each reply span is decoded on its own
 		for i, op := range s.Ops {
